@@ -486,6 +486,12 @@ func orderTrace(m *meta.Module, out map[string][]string) {
 			out["idbase:"+name] = bs
 		}
 	}
+	var feats []string
+	for name := range m.Features() {
+		feats = append(feats, name)
+	}
+	sort.Strings(feats)
+	out["features:"+m.Ident()] = feats
 	var revs []string
 	for _, r := range m.RevisionHistory() {
 		revs = append(revs, r.Ident())
